@@ -42,6 +42,10 @@ type Op struct {
 	// VisErr: for OpVisualize, index of the step whose error is passed to
 	// dig.VisualizeError (-1 none).
 	VisErr int `json:",omitempty"`
+	// Nested: registration ops the function of this op performs itself, from
+	// inside its body, on its first execution (a Provide made while an Invoke
+	// is in progress).
+	Nested []Op `json:",omitempty"`
 }
 
 type Config struct {
@@ -139,6 +143,7 @@ type Run struct {
 	Steps  []*Step
 	uses   map[string]int
 	decls  map[string]string // declared pool function -> instance name in this run
+	nested map[string][]Op   // instance -> ops its body performs
 }
 
 func NewRun(cfg Config) *Run {
@@ -155,6 +160,15 @@ func NewRun(cfg Config) *Run {
 	}
 	r.C = dig.New(opts...)
 	r.Scopes = []*dig.Scope{dig.VerifRootScope(r.C)}
+	r.nested = map[string][]Op{}
+	r.RT.OnBody = func(inst string, exec int) {
+		if exec != 0 {
+			return
+		}
+		for _, op := range r.nested[inst] {
+			r.Apply(op)
+		}
+	}
 	return r
 }
 
@@ -277,6 +291,8 @@ func (r *Run) makeFn(f *u.Func, inst string) interface{} {
 // Apply executes one op and records the step.
 func (r *Run) Apply(op Op) *Step {
 	st := &Step{Op: op, LogFrom: len(r.RT.Log), Model: r.M.Clone()}
+	stepIdx := len(r.Steps)
+	depth0 := r.RT.Depth
 	r.Steps = append(r.Steps, st)
 	for name, inst := range r.decls {
 		u.Declared(name).Bind(r.RT, inst) // another run may have re-bound the pool in between
@@ -298,7 +314,7 @@ func (r *Run) Apply(op Op) *Step {
 					st.V.EscOther = firstLine(fmt.Sprint(p))
 				}
 				st.V.Msg = firstLine(fmt.Sprint(p))
-				r.RT.Depth = 0
+				r.RT.Depth = depth0
 			}
 		}()
 		switch op.Kind {
@@ -316,6 +332,9 @@ func (r *Run) Apply(op Op) *Step {
 			} else {
 				st.Inst = r.nextInst(op.Fn)
 				fn = r.makeFn(op.Fn, st.Inst)
+				if len(op.Nested) > 0 {
+					r.nested[st.Inst] = op.Nested
+				}
 				po = r.ProvideOptions(op.Fn, st.Inst, st)
 			}
 			err = s.Provide(fn, po...)
@@ -344,6 +363,9 @@ func (r *Run) Apply(op Op) *Step {
 			} else {
 				st.Inst = r.nextInst(op.Fn)
 				fn = r.makeFn(op.Fn, st.Inst)
+				if len(op.Nested) > 0 {
+					r.nested[st.Inst] = op.Nested
+				}
 				if op.Fn.Info {
 					st.IInfo = &dig.InvokeInfo{}
 					io = append(io, dig.FillInvokeInfo(st.IInfo))
@@ -375,9 +397,9 @@ func (r *Run) Apply(op Op) *Step {
 	if st.V.OK && op.Raw == nil {
 		switch op.Kind {
 		case OpProvide:
-			r.M.AddCtor(st.Inst, op.Fn, op.Scope, len(r.Steps)-1)
+			r.M.AddCtor(st.Inst, op.Fn, op.Scope, stepIdx)
 		case OpDecorate:
-			r.M.AddDeco(st.Inst, op.Fn, op.Scope, len(r.Steps)-1)
+			r.M.AddDeco(st.Inst, op.Fn, op.Scope, stepIdx)
 		}
 	}
 	return st
